@@ -191,6 +191,53 @@ theorem evalCfiO_eq (env : Env) (cfa : Option UInt64) (toks : List Bytes) :
     evalCfiO env cfa toks = .ok (evalCfi env cfa toks) := by
   simp [evalCfiO, runO_eq, evalCfi, evalToks]
 
+/-- **C06 totality (walk)** `walk_with_stack_cfi` with its panic sites explicit — the evaluator's
+    checked subtraction and the `unreachable!()` for a `.cfa`/`.ra` key met in the loop over the
+    remaining rules — never panics, for any rule lines and any walker; and it is the pure `walkCfi`
+    the other theorems are about (the driver runs `walkFrameO`). -/
+theorem walkCfiO_eq (w : Walker) (lines : List Bytes) : walkCfiO w lines = .ok (walkCfi w lines) := by
+  unfold walkCfiO walkCfi
+  cases parseAll lines [] with
+  | none => rfl
+  | some m =>
+    simp only []
+    rw [get_remove_ne m .ra .cfa (by decide), remove_cfa_ra_eq]
+    cases m.get .cfa with
+    | none => rfl
+    | some cfaE =>
+      cases m.get .ra with
+      | none => rfl
+      | some raE =>
+        simp only [evalCfiO_eq]
+        cases evalCfi w.env none cfaE with
+        | none => rfl
+        | some cfa =>
+          simp only []
+          cases evalCfi w.env (some cfa) raE with
+          | none => rfl
+          | some ra =>
+            simp only []
+            cases w.setCfa w.caller0 cfa with
+            | none => rfl
+            | some c1 =>
+              simp only []
+              cases w.setRa c1 ra with
+              | none => rfl
+              | some c2 =>
+                simp only []
+                have hs : sortBy regLe ((others m).map otherEntry) = (sortOthers (others m)).map otherEntry :=
+                  sortBy_map (fun a b : Name × Expr => bytesLe a.1 b.1) regLe otherEntry (fun _ _ => rfl) _
+                rw [hs, foldO_applyOtherO w cfa (fun e => evalCfiO_eq _ _ e)]
+
+theorem walkFrameO_eq (r : CfiRec) (base : Nat) (w : Walker) :
+    walkFrameO r base w = .ok (walkFrame r base w) := by
+  unfold walkFrameO walkFrame
+  split
+  · rfl
+  · simp only []; split
+    · exact walkCfiO_eq _ _
+    · rfl
+
 /-! ## 3. alignment -/
 
 /-- **C06.3** for a power of two `r`, `l @ r` is the largest multiple of `r` that is `≤ l`. -/
